@@ -279,8 +279,10 @@ def module_source(env, roots) -> str:
             if flavour == "plain":
                 continue
             lines.append(f"    {fname}: {ann}" + (f" = {default}" if default is not None else "") + "\n")
+        # every third class has callable instances (origin() must still see a class, not typing.Callable)
+        call = "    def __call__(self):\n        return None\n" if isinstance(n, int) and n % 3 == 1 else ""
         if flavour == "dataclass":
-            out.append(f"@dataclasses.dataclass({opts})\nclass {cname(n)}:\n" + ("".join(lines) or "    pass\n"))
+            out.append(f"@dataclasses.dataclass({opts})\nclass {cname(n)}:\n" + ("".join(lines) or "    pass\n") + call)
         elif flavour == "namedtuple":
             out.append(f"class {cname(n)}(typing.NamedTuple):\n" + ("".join(lines) or "    pass\n"))
         elif flavour == "typeddict":
@@ -299,7 +301,7 @@ def module_source(env, roots) -> str:
                   "    __hash__ = None\n"
                   f"    def __repr__(self):\n        return '{cname(n)}(' + repr(vars(self)) + ')'\n")
             out.append(f"class {cname(n)}:\n" + "".join(anns) + f"    def __init__(self, {', '.join(params)}):\n"
-                       + ("".join(body) or "        pass\n") + eq)
+                       + ("".join(body) or "        pass\n") + eq + call)
         defined.add(n)
         emit_wrappers()
     assert not late, late
